@@ -333,6 +333,9 @@ func trChoices(kind string) []struct {
 }
 
 func (l *logger) addU(kind string, tag, pos int, v any) {
+	if l.mute {
+		return
+	}
 	l.evs = append(l.evs, fmt.Sprintf("%s%d.%d=%s", kind, tag, pos, encU(v)))
 }
 
@@ -409,6 +412,7 @@ func buildIntOn[R any](p *pipe, l *logger, s *gozod.ZodInteger[int, R], _ func(R
 		case "chk":
 			s = s.Check(func(v R, pl *core.ParsePayload) { pushIssues(p, pos, c, l, any(v), pl) }, customParams(p, pos, c, l, false))
 		}
+		warm[R](l, s)
 	}
 	return s
 }
@@ -434,6 +438,7 @@ func buildSlice(p *pipe, l *logger) core.ZodType[[]int] {
 		case "chk":
 			s = s.Check(func(v []int, pl *core.ParsePayload) { pushIssues(p, pos, c, l, v, pl) }, customParams(p, pos, c, l, false))
 		}
+		warm[[]int](l, s)
 	}
 	return s
 }
@@ -455,6 +460,7 @@ func buildObj(p *pipe, l *logger) core.ZodType[map[string]any] {
 		case "chk":
 			s = s.Check(func(v map[string]any, pl *core.ParsePayload) { pushIssues(p, pos, c, l, v, pl) }, customParams(p, pos, c, l, false))
 		}
+		warm[map[string]any](l, s)
 	}
 	return s
 }
@@ -480,12 +486,14 @@ func buildU(p *pipe, l *logger) core.ZodType[any] {
 		return anyAdapter[string]{buildBaseVal(p, l), p.tag}
 	case "T":
 		src := buildU(p.a, l)
+		warm[any](l, src)
 		return core.NewZodTransform[any, any](src, func(in any, _ *core.RefinementContext) (any, error) {
-			l.evs = append(l.evs, fmt.Sprintf("t%d=%s", p.id, encU(in)))
+			l.raw(fmt.Sprintf("t%d=%s", p.id, encU(in)))
 			return customTrU(p.k, in), nil
 		})
 	}
 	dst := buildU(p.b, l)
+	warm[any](l, dst)
 	if p.mp && p.a.kind == "B" && p.a.vk == "i" {
 		// the integer type's own Pipe method (types/integer.go) instead of core.NewZodPipe
 		if p.a.ptr {
@@ -494,6 +502,7 @@ func buildU(p *pipe, l *logger) core.ZodType[any] {
 		return buildIntOn(p.a, l, gozod.Int(tyMsg(p.a.tag)), nil).Pipe(dst)
 	}
 	src := buildU(p.a, l)
+	warm[any](l, src)
 	return core.NewZodPipe[any, any](src, dst, func(in any, pc *core.ParseContext) (any, error) {
 		return dst.Parse(in, pc)
 	})
@@ -660,8 +669,8 @@ func genPipeU(r *hx.Rng, depth int, kind string, in any, st *genState) (*pipe, s
 	return p, kind
 }
 
-func observeU(p *pipe, input any) string {
-	l := &logger{}
+func observeU(p *pipe, input any, hist []func() any) string {
+	l := &logger{hist: hist}
 	var head string
 	pm := hx.Safely(func() {
 		sch := buildU(p, l)
@@ -674,6 +683,9 @@ func observeU(p *pipe, input any) string {
 	})
 	if pm != "" {
 		return "panic " + strings.ReplaceAll(pm, "\n", " ")
+	}
+	if l.warmPanic != "" {
+		return "panic in-a-history-parse " + strings.ReplaceAll(l.warmPanic, "\n", " ")
 	}
 	return head + ";" + strings.Join(l.evs, ";")
 }
@@ -691,26 +703,40 @@ func runUniversal(o *hx.Out, r *hx.Rng, n int) {
 		if p.kind == "P" && p.a.kind == "B" && p.a.vk == "i" && r.Chance(50) {
 			p.mp = true // root pipe from an Int base: through ZodIntegerTyped.Pipe
 		}
-		var input any = in
 		star := ""
+		isPtr := false
 		// (the class of every check kind on a raw pointer payload is read from Gen/RawClass.lean, Check(fn) of the
 		// string types included: no line is kept free of pointers any more)
 		noPtr := false
 		if !noPtr && r.Chance(35) {
-			switch v := in.(type) {
-			case string:
-				input = &v
-			case int:
-				input = &v
-			case []int:
-				input = &v
-			case map[string]any:
-				input = &v
-			}
+			isPtr = true
 			star = "*"
 		}
-		obs := observeU(p, input)
-		o.Emit(fmt.Sprintf("c10u %s | %s%s #%s", p.tokensU(), encU(in), star, p.howU()), obs)
+		mk := func() any {
+			v := fresh(in)
+			if !isPtr {
+				return v
+			}
+			switch x := v.(type) {
+			case string:
+				return &x
+			case int:
+				return &x
+			case []int:
+				return &x
+			case map[string]any:
+				return &x
+			}
+			return v
+		}
+		how := p.howU()
+		var hist []func() any
+		if r.Chance(40) {
+			hist = genHist(r, in, func() any { return genValue(r, kind) })
+			how += " history=parse-after-every-prefix"
+		}
+		obs := observe(p, mk, hist, observeU)
+		o.Emit(fmt.Sprintf("c10u %s | %s%s #%s", p.tokensU(), encU(in), star, how), obs)
 		o.Count("u:kind:" + kind + star)
 		o.Count("u:depth:" + strconv.Itoa(depth))
 		o.Count("u:outcome:" + strings.SplitN(obs, " ", 2)[0])
